@@ -79,6 +79,26 @@ Theorem C01_iter_resume_chain_every_step : forall c, c_kind c = KIter -> 0 < c_W
 Proof. exact iter_resume_chain_I1. Qed.
 Print Assumptions C01_iter_resume_chain_every_step.
 
+(* the same for iterable datasets WITHOUT a state of their own (the FAST-FORWARD path of a resume: fresh workers, the batches of the
+   snapshot step replayed under any arrival schedule, the last-yielded-worker cross-check — shown to pass: two walks that leave the
+   same remaining stream stand at the same slot, `pointer_unique` / `last_worker_unique`), snapshot_every_n_steps = 1, any chain *)
+Theorem C01_iter_resume_chain_every_step_fast_forward : forall c, c_kind c = KIter -> 0 < c_W c -> 0 < c_P c -> c_stateful c = false -> c_I c = 1 ->
+  forall ks sched, fold_right Nat.add 0 ks <= length (reference c) ->
+  let '(s, sched') := chain c ks (sdl_fresh c) sched in
+  let p := fold_right Nat.add 0 ks in
+  outcomes c (S (length (reference c) - p)) s sched' = map OBatch (skipn p (reference c)) ++ [OStop].
+Proof. exact iter_resume_chain_I1_ff. Qed.
+Print Assumptions C01_iter_resume_chain_every_step_fast_forward.
+
+(* hence: iterable datasets of either kind at the DEFAULT snapshot interval — any chain of checkpoint/resume is exact *)
+Theorem C01_iter_resume_chain_default_interval : forall c, c_kind c = KIter -> 0 < c_W c -> 0 < c_P c -> c_I c = 1 ->
+  forall ks sched, fold_right Nat.add 0 ks <= length (reference c) ->
+  let '(s, sched') := chain c ks (sdl_fresh c) sched in
+  let p := fold_right Nat.add 0 ks in
+  outcomes c (S (length (reference c) - p)) s sched' = map OBatch (skipn p (reference c)) ++ [OStop].
+Proof. exact iter_resume_chain_default. Qed.
+Print Assumptions C01_iter_resume_chain_default_interval.
+
 (* snapshot_every_n_steps = 0, iterable datasets WITH or WITHOUT a state of their own (restore path / fast-forward path: fresh workers,
    the steps replayed): any finite chain of checkpoint/resume, every arrival schedule throughout *)
 Theorem C01_iter_resume_chain_no_snapshots : forall c, c_kind c = KIter -> 0 < c_W c -> 0 < c_P c -> c_I c = 0 ->
